@@ -5,7 +5,7 @@
  *
  *   U <tid> <name> <total_ns> <self_ns> <rec>        one line per report_update_node() that counted
  *                                                     (rec = the call went to total.rec, i.e. "recursive")
- *   N <name> <call> <t.sum> <t.rec> <t.avg> <t.min> <t.max> <s.sum> <s.rec> <s.avg> <s.min> <s.max>
+ *   N <name> <call> <t.sum> <t.rec> <t.avg> <t.min> <t.max> <s.sum> <s.rec> <s.avg> <s.min> <s.max> <t.stdv %a> <s.stdv %a>
  *                                                     the node table in name-tree order after report_calc_avg
  *   S <keys> <name> <name> ...                        row order produced by report_sort_nodes for <keys>
  *
@@ -86,10 +86,10 @@ int main(int argc, char **argv)
 		struct uftrace_report_node *node = rb_entry(n, struct uftrace_report_node, name_link);
 
 		printf("N %s %" PRIu64 " %" PRIu64 " %" PRIu64 " %" PRIu64 " %" PRIu64 " %" PRIu64
-		       " %" PRIu64 " %" PRIu64 " %" PRIu64 " %" PRIu64 " %" PRIu64 "\n",
+		       " %" PRIu64 " %" PRIu64 " %" PRIu64 " %" PRIu64 " %" PRIu64 " %a %a\n",
 		       node->name, node->call, node->total.sum, node->total.rec, node->total.avg,
 		       node->total.min, node->total.max, node->self.sum, node->self.rec,
-		       node->self.avg, node->self.min, node->self.max);
+		       node->self.avg, node->self.min, node->self.max, node->total.stdv, node->self.stdv);
 	}
 
 	for (i = 2; i < argc; i++) {
